@@ -79,4 +79,49 @@ def acEquiv (k : ACK) (w : Nat) (lhs rhs : Expr) : Bool :=
   let r := splitC w (flat k.op rhs)
   decide (0 < w) && decide (cprod k w l.1 = cprod k w r.1) && (k.reduce l.2).isPerm r.2
 
+/-! ### Boolean `And` / `Or` (boolean_and_simplifier / boolean_or_simplifier): flattening, dropped identity literals, an absorbing
+literal decides the node, repeated operands are dropped, order is irrelevant -/
+inductive BK where
+  | and | or
+  deriving DecidableEq, Repr
+
+def BK.op : BK → Op
+  | .and => .and | .or => .or
+
+def BK.ofOp : Op → Option BK
+  | .and => some .and | .or => some .or | _ => none
+
+def BK.g : BK → Bool → Bool → Bool
+  | .and => (· && ·) | .or => (· || ·)
+
+/-- identity literal (`true` for And, `false` for Or); the absorbing literal is its negation -/
+def BK.e : BK → Bool
+  | .and => true | .or => false
+
+mutual
+def flatB (op : Op) : Expr → List Expr
+  | .app op' args => if op' = op ∧ 1 ≤ args.length then flatBList op args else [.app op' args]
+  | .bvv v w => [.bvv v w]
+  | .bvs n w => [.bvs n w]
+  | .boolv b => [.boolv b]
+  | .bools n => [.bools n]
+def flatBList (op : Op) : List Expr → List Expr
+  | [] => []
+  | e :: es => flatB op e ++ flatBList op es
+end
+
+/-- Boolean literals among the operands and the remaining operands -/
+def splitB : List Expr → List Bool × List Expr
+  | [] => ([], [])
+  | .boolv b :: ts => let r := splitB ts; (b :: r.1, r.2)
+  | t :: ts => let r := splitB ts; (r.1, t :: r.2)
+
+def bprod (k : BK) (bs : List Bool) : Bool := bs.foldl k.g k.e
+
+def bcEquiv (k : BK) (lhs rhs : Expr) : Bool :=
+  let l := splitB (flatB k.op lhs)
+  let r := splitB (flatB k.op rhs)
+  if bprod k l.1 = k.e then bprod k r.1 = k.e && (dedupe l.2).isPerm r.2
+  else bprod k r.1 ≠ k.e && r.2.isEmpty        -- an absorbing literal: the node is that literal
+
 end Claripy.AST
